@@ -10,6 +10,8 @@ func init() {
 		hash = "internal/utils/hash.go"
 		rev  = "internal/controllers/objectsets/revision_reconciler.go"
 	)
+	const slicesImportOld = "\t\"fmt\"\n\n\t\"package-operator.run/internal/adapters\"\n"
+	const slicesImportNew = "\t\"fmt\"\n\t\"slices\"\n\n\t\"package-operator.run/internal/adapters\"\n"
 	const delayLoop = "\tfor _, objectSet := range objectSets {\n\t\tif objectSet.GetRevision() == 0 {\n\t\t\treturn ctrl.Result{}, nil\n\t\t}\n\t}\n"
 	const selection = "\tif len(objectSets) > 0 {\n" +
 		"\t\tmaybeCurrentObjectSet := objectSets[len(objectSets)-1]\n" +
@@ -55,6 +57,36 @@ func init() {
 		Mutant{Prop: "C07", Name: "r1-benign-classic-for-and-negated-test", File: osr, Benign: true,
 			Old: delayLoop,
 			New: "\tfor i := 0; i < len(objectSets); i++ {\n\t\tif objectSets[i].GetRevision() != 0 {\n\t\t\tcontinue\n\t\t}\n\t\treturn ctrl.Result{}, nil\n\t}\n"},
+
+		// the delay loop spelled with the standard library's search functions (corpus J4-1)
+		Mutant{Prop: "C07", Name: "r1-benign-delay-as-containsfunc", File: osr, Benign: true,
+			Old:  delayLoop,
+			New:  "\tif slices.ContainsFunc(objectSets, func(objectSet adapters.ObjectSetAccessor) bool {\n\t\treturn objectSet.GetRevision() == 0\n\t}) {\n\t\treturn ctrl.Result{}, nil\n\t}\n",
+			More: []Edit{{File: osr, Old: slicesImportOld, New: slicesImportNew}}},
+		Mutant{Prop: "C07", Name: "r1-benign-delay-as-indexfunc", File: osr, Benign: true,
+			Old:  delayLoop,
+			New:  "\tif idx := slices.IndexFunc(objectSets, func(objectSet adapters.ObjectSetAccessor) bool {\n\t\tif objectSet.GetRevision() != 0 {\n\t\t\treturn false\n\t\t}\n\t\treturn true\n\t}); idx >= 0 {\n\t\treturn ctrl.Result{}, nil\n\t}\n",
+			More: []Edit{{File: osr, Old: slicesImportOld, New: slicesImportNew}}},
+		Mutant{Prop: "C07", Name: "r1-containsfunc-tests-revision-one", File: osr,
+			Old:    delayLoop,
+			New:    "\tif slices.ContainsFunc(objectSets, func(objectSet adapters.ObjectSetAccessor) bool {\n\t\treturn objectSet.GetRevision() == 1\n\t}) {\n\t\treturn ctrl.Result{}, nil\n\t}\n",
+			More:   []Edit{{File: osr, Old: slicesImportOld, New: slicesImportNew}},
+			Expect: []string{"C07.R1@"}},
+		Mutant{Prop: "C07", Name: "r1-containsfunc-result-ignored", File: osr,
+			Old:    delayLoop,
+			New:    "\t_ = slices.ContainsFunc(objectSets, func(objectSet adapters.ObjectSetAccessor) bool {\n\t\treturn objectSet.GetRevision() == 0\n\t})\n",
+			More:   []Edit{{File: osr, Old: slicesImportOld, New: slicesImportNew}},
+			Expect: []string{"C07.R1@"}},
+		Mutant{Prop: "C07", Name: "r1-containsfunc-skips-archived", File: osr,
+			Old:    delayLoop,
+			New:    "\tif slices.ContainsFunc(objectSets, func(objectSet adapters.ObjectSetAccessor) bool {\n\t\tif objectSet.IsArchived() {\n\t\t\treturn false\n\t\t}\n\t\treturn objectSet.GetRevision() == 0\n\t}) {\n\t\treturn ctrl.Result{}, nil\n\t}\n",
+			More:   []Edit{{File: osr, Old: slicesImportOld, New: slicesImportNew}},
+			Expect: []string{"C07.R1@"}},
+		Mutant{Prop: "C07", Name: "r1-indexfunc-ignores-first-element", File: osr,
+			Old:    delayLoop,
+			New:    "\tif idx := slices.IndexFunc(objectSets, func(objectSet adapters.ObjectSetAccessor) bool {\n\t\treturn objectSet.GetRevision() == 0\n\t}); idx > 0 {\n\t\treturn ctrl.Result{}, nil\n\t}\n",
+			More:   []Edit{{File: osr, Old: slicesImportOld, New: slicesImportNew}},
+			Expect: []string{"C07.R1@"}},
 
 		// ---- R2: current = newest with matching hash, previous = all others
 		Mutant{Prop: "C07", Name: "r2-current-on-hash-mismatch", File: osr,
